@@ -381,14 +381,24 @@ void World::opRawSeg(const Item& op)
     whole.msgId = id;
     uint32_t off = 0;
     size_t total = 0;
+    // an honest sender (C05 / C06 traffic) never sends more than 65535 payload bytes in one message; only the hostile
+    // families (C02 C17 C18 ...) go beyond, where the outcome is unspecified and only safety is demanded
+    const bool honest = is("C05") || is("C06") || is("C01") || is("C16");
+    std::vector<size_t> segLen;
     for (auto s : segs)
-        total += static_cast<size_t>(std::min<int64_t>(std::max<int64_t>(0, s->get("len", 0)), 65535));
+    {
+        size_t l = static_cast<size_t>(std::min<int64_t>(std::max<int64_t>(0, s->get("len", 0)), 65535));
+        if (honest && total + l > 65535)
+            l = 65535 - total;
+        segLen.push_back(l);
+        total += l;
+    }
     const bool tooLong = total > 65535;
     bool wrapsInside = false;
     for (size_t k = 0; k < segs.size(); ++k)
     {
         const Item& s = *segs[k];
-        size_t len = static_cast<size_t>(std::min<int64_t>(std::max<int64_t>(0, s.get("len", 0)), 65535));
+        size_t len = segLen[k];
         size_t trail = static_cast<size_t>(std::min<int64_t>(std::max<int64_t>(0, s.get("trail", 0)), 2000));
         InFlight f;
         f.bytes.assign(wire::CMP_HDR + wire::MSG_HDR + len + trail, 0);
@@ -464,6 +474,8 @@ void World::opRaw(const Item& op)
     h.dev = static_cast<uint16_t>(op.has("dev") ? op.get("dev") : n.dev);
     h.stream = static_cast<uint8_t>(op.has("stream") ? op.get("stream") : n.stream);
     h.mtype = static_cast<uint8_t>(op.get("mtype", 1));
+    if (h.mtype == 0 && (is("C05") || is("C06") || is("C01") || is("C16")))
+        h.mtype = 1;  // honest senders do not use the undefined message type
     if (op.has("ctr"))
         n.ctr = static_cast<uint16_t>(op.get("ctr"));
     h.ctr = n.ctr;
